@@ -59,7 +59,7 @@ partial def lexUntil (close : Option Char) : List Char → List Tok → Option (
     else if isWordChar c then
       let word := (c :: cs).takeWhile isWordChar
       let rest := (c :: cs).dropWhile isWordChar
-      let t := if c.isDigit then Tok.lit (parseUsize (String.ofList word)) else Tok.ident (String.ofList word)
+      let t := if c.isDigit then Tok.ofLiteralText (String.ofList word) else Tok.ident (String.ofList word)
       lexUntil close rest (t :: acc)
     else lexUntil close cs (.punct c :: acc)
 
